@@ -277,7 +277,34 @@ def nativeObj (k : Kind) (a : Addr) : SObj :=
        (10, .data 1 true false false), (11, .data 997 false false false)]⟩
   | .date => ⟨none, true, []⟩
 
+/-- §11.1.5 PropertyAssignment: the descriptor of one member -/
+def literalPD : LMember → PD
+  | (.value, _, v) => { noPD with value := some v, writable := some true, enumerable := some true, configurable := some true }
+  | (.get, _, _) => { noPD with get := some (some 900), enumerable := some true, configurable := some true }
+  | (.set, _, _) => { noPD with set := some (some 900), enumerable := some true, configurable := some true }
+
+/-- §11.1.5 `PropertyNameAndValueList , PropertyAssignment` step 4 (non-strict code): SyntaxError when the
+    name was already given as the other kind (data vs accessor) or as an accessor with the same half -/
+def literalClash (seen : List LMember) (m : LMember) : Bool :=
+  seen.any (fun p => p.2.1 == m.2.1 &&
+    (match p.1, m.1 with
+     | .value, .value => false
+     | .get, .set => false
+     | .set, .get => false
+     | _, _ => true))
+
+def literalInvalid : List LMember → List LMember → Bool
+  | _, [] => false
+  | seen, m :: t => literalClash seen m || literalInvalid (seen ++ [m]) t
+
+def literalFold (o : SObj) : List LMember → SObj
+  | [] => o
+  | m :: t => literalFold ((defineOwn o m.2.1 (literalPD m)).getD o) t      -- step 5: [[DefineOwnProperty]](name, desc, false)
+
 def step (h : SHeap) : Op → StepRes
+  | .literal ms =>
+    if literalInvalid [] ms then (h, .syntaxError, [])
+    else (h ++ [literalFold ⟨none, true, []⟩ ms], .ok, [])
   | .native k => (h ++ [nativeObj k h.length], .ok, [])
   | .put strict a n v => put h a n v strict
   | .del strict a n => delete h a n strict
